@@ -66,6 +66,12 @@ class UlHistories(Stream):
             slow = ia == 1 or ea == 1
             n = rng.range(1, 8 if slow else 40) if quick else rng.range(1, 40)
             cs.append(history(rng, ia, ea, rng.choice(["octet", "carry", "wrap24", "mid"]), n, rng.chance(1, 2), dl=(i % 3 == 0)))
+        # legal but unusual keys: all zero, all one (0^128 is a possible KDF output)
+        for j, (ia, ea) in enumerate([(2, 2), (1, 1), (2, 1), (1, 2)] if quick else L.PAIRS + [(2, 2), (1, 1)]):
+            h = history(rng, ia, ea, "octet", 4, j % 2 == 0)
+            h["kint"], h["kenc"] = [("00" * 16, "00" * 16), ("00" * 16, rng.bytes(16).hex()), (rng.bytes(16).hex(), "00" * 16), ("ff" * 16, "ff" * 16)][j % 4]
+            h["kind"] = "boundary-keys"
+            cs.append(h)
         # messages longer than 4096 octets (UL NAS TRANSPORT with a large payload container), ciphered
         for ia, ea in ([(2, 2), (1, 1)] if quick else L.PAIRS):
             h = history(rng, ia, ea, "mid", 2, False)
